@@ -3,7 +3,7 @@ import ast
 
 from ..core import Mutant, norm
 from ..absint import Domain, Interp, NORMAL, RETURN, BREAK, CONTINUE, is_raise
-from ..astutil import method_call, unparse, is_self_call, parent
+from ..astutil import method_call, unparse, is_self_call, parent, alpha
 from ..index import dotted, walk_local
 from ..loader import AnalysisError
 
@@ -101,6 +101,53 @@ class OrderDomain(Domain):
         yield state, NORMAL
 
 
+def conjunction_shape(f):
+    """('all' | 'last' | 'unknown', node, why) for a function that folds a loop of boolean results.
+    Recognised: (A) `for x in L: if not <call>: return False` ... `return True`; (B) `R = True; for x in L: R = <call>; if not R: break|return`
+    ... `return R`; (C) `return all(...)`."""
+    rets = [n for n in walk_local(f.node) if isinstance(n, ast.Return)]
+    if any(isinstance(r.value, ast.Call) and dotted(r.value.func) == "all" for r in rets):
+        return "all", None, ""
+    loops = [n for n in walk_local(f.node) if isinstance(n, (ast.For, ast.While))]
+    if len(loops) != 1:
+        return "unknown", None, "%d loops" % len(loops)
+    lp = loops[0]
+    retvars = {dotted(r.value) for r in rets if isinstance(r.value, ast.Name)}
+    # idiom A
+    for st in lp.body:
+        if isinstance(st, ast.If) and isinstance(st.test, ast.UnaryOp) and isinstance(st.test.op, ast.Not) and isinstance(st.test.operand, ast.Call) \
+                and st.body and isinstance(st.body[-1], ast.Return) and getattr(st.body[-1].value, "value", None) is False:
+            tail = [r for r in rets if r.lineno > lp.end_lineno]
+            if tail and all(getattr(r.value, "value", None) is True for r in tail):
+                return "all", st, ""
+    # idiom B
+    assigns = [n for n in ast.walk(lp) if isinstance(n, ast.Assign) and isinstance(n.targets[0], ast.Name) and n.targets[0].id in retvars
+               and any(isinstance(c, ast.Call) for c in ast.walk(n.value))]
+    if not assigns:
+        dropped = [st for st in lp.body if isinstance(st, ast.Expr) and isinstance(st.value, ast.Call)]
+        if dropped and rets and all(getattr(r.value, "value", None) is True for r in rets):
+            return "last", dropped[0], "the result of `%s` is discarded and the function returns True regardless" % unparse(dropped[0])
+        return "unknown", None, "no result variable assigned from a call inside the loop"
+    for a in assigns:
+        r = a.targets[0].id
+        if isinstance(a.value, ast.BoolOp) and isinstance(a.value.op, ast.And) and dotted(a.value.values[0]) == r:
+            continue            # R = R and <call>
+        blk = None
+        p_ = parent(a)
+        for field in ("body", "orelse"):
+            b_ = getattr(p_, field, None)
+            if isinstance(b_, list) and a in b_:
+                blk = b_
+        nxt = blk[blk.index(a) + 1] if blk is not None and blk.index(a) + 1 < len(blk) else None
+        stops = isinstance(nxt, ast.If) and isinstance(nxt.test, ast.UnaryOp) and isinstance(nxt.test.op, ast.Not) and dotted(nxt.test.operand) == r \
+            and nxt.body and isinstance(nxt.body[-1], (ast.Break, ast.Return))
+        # the stop must leave the loop on every iteration that produced a falsy result: the assignment and its test sit directly in the loop body
+        if not (stops and p_ is lp):
+            return "last", a, "`%s` is overwritten by later elements (no `if not %s: break` directly after it in the loop body), so the result is that " \
+                   "of the last element evaluated" % (unparse(a), r)
+    return "all", assigns[0], ""
+
+
 def check(run):
     ix = run.ix
     boxer = ix.cls(BX, "Boxer")
@@ -153,7 +200,53 @@ def check(run):
     kinds = sorted((x[1], x[2]) for x in elts)
     ok = kinds == [("common", "bottom-up"), ("common", "top-down"), ("uncommon", "bottom-up"), ("uncommon", "top-down")]
     run.ob("C25.R1", "%s:returns-four-distinct-roles" % exen.fq, ok, run.site(exen), "" if ok else "exen() returns %s" % elts)
-    run.floor("C25.R1", 8)
+    # the split point: the first index at which the far box itself is reached in the near pile (forced re-entry of far and everything
+    # below it) or at which the two piles differ.  Both must be unconditioned disjuncts of the loop's test.
+    nearv = next((v for v, r in pilevar.items() if r == "nears"), None)
+    farv = next((v for v, r in pilevar.items() if r == "fars"), None)
+    loops = [n for n in walk_local(exen.node) if isinstance(n, ast.For) and isinstance(n.target, ast.Name)]
+    found = None
+    for lp in loops:
+        for st in lp.body:
+            if isinstance(st, ast.If) and any(isinstance(x, ast.Return) for x in ast.walk(st)):
+                found = (lp, st)
+    if found is None or nearv is None or farv is None:
+        run.inconclusive_at("C25.R1", run.site(exen), "exen(): split loop `for i in range(l): if <test>: return (...)` not recognised")
+    else:
+        lp, st = found
+        ren = {nearv: "nears", farv: "fars", lp.target.id: "i", pnames[0]: "near", pnames[1]: "far"}
+        t = alpha(st.test, ren)
+        disj = t.values if isinstance(t, ast.BoolOp) and isinstance(t.op, ast.Or) else [t]
+
+        def canon(c):
+            if isinstance(c, ast.Compare) and len(c.ops) == 1 and isinstance(c.ops[0], (ast.Is, ast.IsNot)):
+                return (type(c.ops[0]).__name__, frozenset((unparse(c.left), unparse(c.comparators[0]))))
+            return ("other", unparse(c))
+        have = {canon(c) for c in disj}
+        want = {("Is", frozenset(("far", "nears[i]"))), ("IsNot", frozenset(("fars[i]", "nears[i]")))}
+        missing = want - have
+        extra = have - want
+        ok = not missing and not extra
+        if not ok and not any(w[1] <= {x for c in ast.walk(t) if isinstance(c, ast.Compare) for x in (unparse(c.left), unparse(c.comparators[0]))} for w in missing):
+            run.inconclusive_at("C25.R1", run.site(exen, st), "exen(): split test `%s` is not built from the recognised comparisons" % unparse(st.test))
+        else:
+            run.ob("C25.R1", "%s:split-at-far-or-first-difference" % exen.fq, ok, run.site(exen, st),
+                   "" if ok else "exen() splits the piles where `%s`; the documented split is the first index where the far box itself is reached in the "
+                   "near pile (forced exit and re-entry of far and all below it) or where the piles differ, each unconditionally (%s)" %
+                   (unparse(st.test), "; ".join(["missing or conditioned: %s %s" % (k, sorted(v)) for k, v in sorted(missing, key=str)] +
+                                                ["extra: %s" % (e,) for e in sorted(extra, key=str)])))
+    run.floor("C25.R1", 9)
+    # R4 entry preconditions are a conjunction: one unmet precondition refuses the transition
+    for owner, q in ((boxer, "predo"), (ix.cls(BX, "Box"), "predo")):
+        f = ix.method(owner, q)
+        kind, node, why = conjunction_shape(f)
+        if kind == "unknown":
+            run.inconclusive_at("C25.R4", run.site(f), "%s: conjunction idiom not recognised (%s)" % (f.qualname, why))
+            continue
+        run.ob("C25.R4", "%s:all-preconditions-must-hold" % f.fq, kind == "all", run.site(f, node) if node is not None else run.site(f),
+               "" if kind == "all" else "%s does not return the conjunction of its elements' results: %s; a transition is taken although an entry "
+               "precondition of one of the boxes to be entered is not met" % (f.qualname, why))
+    run.floor("C25.R4", 2)
     # R2 tentative / commit
     dom = TentativeDomain()
     res = Interp(dom, run.lat).run(runf.node)
@@ -198,6 +291,9 @@ def check(run):
 
 
 MUTANTS = [
+    Mutant("exen-forced-reentry-conditioned", BX, "Boxer.exen", "if (far is nears[i]) or (fars[i] is not nears[i]):", "if (fars == nears and far is nears[i]) or (fars[i] is not nears[i]):", {"C25.R1"}),
+    Mutant("predo-result-of-last-box", BX, "Boxer.predo", "            met = box.predo()\n            if not met:\n                break\n", "            if box.preacts:\n                met = box.predo()\n", {"C25.R4"}, canary=True),
+    Mutant("box-predo-ignores-failure", BX, "Box.predo", "            if not preact():\n                return False\n", "            preact()\n", {"C25.R4"}),
     Mutant("reintroduce-swapped-unpack", BX, "Boxer.run", "exdos, endos, rexdos, rendos = self.exen(box, dest)", "exdos, endos, rendos, rexdos = self.exen(box, dest)", {"C25.R1"}, canary=True),
     Mutant("reintroduce-end-topdown", BX, "Boxer.end", "self.exdo(list(reversed(self.box.pile)))", "self.exdo(self.box.pile)", {"C25.R1"}, canary=True),
     Mutant("reintroduce-stale-endos", BX, "Boxer.run", "                            rendos = []  # no transit so nothing to re-enter\n                            endos = []  # no transit so nothing to enter\n", "", {"C25.R2"}, canary=True),
